@@ -339,7 +339,13 @@ impl rustc_driver::Callbacks for Cb {
                 let _ = write!(out, "{{\"path\":{},\"exported\":{},\"size\":{},\"variants\":[", esc(&tcx.def_path_str(did)), exported, size);
                 for (vi, v) in def.variants().iter().enumerate() {
                     if vi > 0 { out.push(','); }
-                    let fs: Vec<String> = v.fields.iter().map(|f| format!("{{\"name\":{},\"ty\":{},\"pub\":{}}}", esc(&f.name.to_string()), esc(&tcx.type_of(f.did).instantiate_identity().skip_norm_wip().to_string()), f.vis.is_public())).collect();
+                    let fs: Vec<String> = v.fields.iter().map(|f| {
+                        let fty = tcx.type_of(f.did).instantiate_identity().skip_norm_wip();
+                        let env = TypingEnv::post_analysis(tcx, did);
+                        let nty = tcx.try_normalize_erasing_regions(env, tcx.type_of(f.did).instantiate_identity()).unwrap_or(fty);
+                        let alen: i64 = if let ty::Array(_, n) = nty.kind() { n.try_to_target_usize(tcx).map(|x| x as i64).unwrap_or(-1) } else { -1 };
+                        format!("{{\"name\":{},\"ty\":{},\"pub\":{},\"array_len\":{}}}", esc(&f.name.to_string()), esc(&fty.to_string()), f.vis.is_public(), alen)
+                    }).collect();
                     let _ = write!(out, "{{\"name\":{},\"fields\":[{}]}}", esc(&v.name.to_string()), fs.join(","));
                 }
                 out.push_str("]}");
